@@ -2,6 +2,7 @@
 //! Coloquinte/volute (see /verif/DESIGN.md).
 
 pub mod adapter;
+pub mod bddref;
 pub mod cli;
 pub mod common;
 pub mod engine;
@@ -10,3 +11,4 @@ pub mod model;
 pub mod ops;
 pub mod orbit;
 pub mod props;
+pub mod sopx;
